@@ -16,6 +16,15 @@ CHECKS['C16'] = dict(cat='model_checking', engine='z3-bmc',
     text='For each scenario of up to 3 client threads (prepare / first call / close sequences) the schedule is a vector of solver variables; unsat at bound = instruction count means no line-level interleaving violates one-launch / no-exception / all-answered / no-deadlock. An inductive check (Init=>R, R&T=>R, R&final=>safe) with the explicitly enumerated reachable set as candidate invariant gives the same verdict without a bound. Server side: CrossHair over the real Server.run with scripted messages.',
     note='_run summarised by its Popen/Client assignments (both succeed at once); opaque argument expressions evaluated concretely; line granularity; close() racing a call on another thread is outside; translation validated each run by explicit enumeration and by replaying schedules on real threads with a settrace scheduler; real subprocess/socket behaviour outside.',
     ref='3/C16')
+_T_NOTE = ('program shapes enumerated (parser is C); supp dict/set displays rewritten to equality-only containers so identifiers stay symbolic; UndefinedName/find_id_loc/builtin table stubbed; reference semantics validated against real CPython each run; candidates replayed on real text with the untransformed supp. Imports, match, del, stdlib corpus outside.')
+for _p, _t in (('C01', 'reads that succeed in some CPython execution are visible (flow attached, name in names_at)'),
+               ('C02', 'bindings a read can obtain at run time are among the alternatives supp lists'),
+               ('C03', 'no phantom alternatives; possibly-undefined marker exact; never-bound names absent'),
+               ('C05', 'Name.scope of every alternative is the scope CPython binds/reads the name in')):
+    CHECKS[_p] = dict(cat='other',
+        tech='CrossHair/z3 symbolic execution of the real extractor and Flow.names_at with symbolic identifier strings (one path per equality pattern), reference = definitional interpreter exhaustive over execution decisions',
+        text='Bounded symbolic execution of the real analysis over an enumerated family of program shapes: ' + _t + '. Per shape the identifiers are solver variables; "confirmed" = every equality pattern of the identifiers (Bell(n) paths) explored with no counterexample; the claim covers all identifier strings of the fixed length, not a sample alphabet.',
+        note=_T_NOTE, ref='3/' + _p)
 NA = {}
 
 def main():
